@@ -47,7 +47,56 @@ var strEdgeGroups = [][]string{
 	{"ab", "a", "abc"},                 // prefix
 }
 
-// leafEdges returns the edge groups of a leaf kind: all groups (full) or the first three.
+// Unicode folds: distinct strings that collide under one of the text transformations a string
+// library is tempted to apply on construction or comparison — compatibility normalisation (NFKC /
+// NFKD: ligatures, circled / superscript / full-width / mathematical forms, unit and letter-like
+// symbols, the non-ASCII blanks), case folding with its special cases (sharp s, dotted / dotless i,
+// final sigma, title-case digraphs), stripping of marks, of default-ignorable code points (zero
+// width space / joiner, soft hyphen, BOM) and of emoji modifiers, and narrowing to the BMP. Every
+// string here is NFC-normal (checked with x/text/unicode/norm when the list was written), because
+// NFC-normalisation itself is what the VM library does today (open finding KF-c13-vm-string-nfc,
+// whose construct — a string that is NOT NFC-normal — lives in the poisoned workload); none
+// contains a quote, a backslash or a control character, so all can be written as literals.
+// Invisible and look-alike code points are spelled as escapes.
+var strFoldGroups = [][]string{
+	// compatibility: ligature fi, circled digit one
+	{"\ufb01n\u2460", "fin1", "\ufb01n1"},
+	// case fold, full: sharp s
+	{"stra\u00dfe", "strasse", "STRASSE"},
+	// width: full-width Latin / digit, half-width katakana
+	{"\uff21\uff42\uff11 \uff76", "Ab1 \u30ab"},
+	// compatibility: superscript, Roman numeral, unit, trade mark
+	{"x\u00b2 \u216b \u338f \u2122", "x2 XII kg TM"},
+	// blanks: no-break, ideographic, em space
+	{"p q", "p\u00a0q", "p\u3000q", "p\u2003q"},
+	// case fold: dotted capital I, dotless small i
+	{"\u0130i", "Ii", "ii", "\u0131i"},
+	// case fold: final sigma
+	{"\u03cc\u03c2", "\u03cc\u03c3", "\u038c\u03a3"},
+	// mark stripping / canonical decomposition (precomposed Latin, Hangul syllables)
+	{"\u00e9", "e", "\u00c9", "\ud55c\uae00", "\ud55c\uad74"},
+	// default ignorables: ZWSP, soft hyphen, ZWJ, BOM
+	{"cd", "c\u200bd", "c\u00add", "c\u200dd", "c\ufeffd"},
+	// combining sequences without a precomposed form
+	{"q\u0323\u0307", "q\u0323", "q\u0307"},
+	// emoji: ZWJ sequence, skin tone, variation selector
+	{"\U0001f468\u200d\U0001f469\u200d\U0001f467", "\U0001f468\U0001f469\U0001f467", "\U0001f44d\U0001f3fd", "\U0001f44d", "\u2764\ufe0f", "\u2764"},
+	// supplementary planes: mathematical bold (compatibility), last byte of a 4-byte sequence
+	{"\U0001d400\U0001d7cf", "A1", "\U0001f600", "\U0001f601"},
+	// title case: the dz-caron digraph in its three cases
+	{"\u01c6", "\u01c5", "\u01c4"},
+}
+
+// foldSampler is one NFC-normal string with a member of most fold classes (ligature, circled digit,
+// full-width letter, sharp s, dotted capital I, no-break space, zero width space, emoji with skin
+// tone, mathematical bold letter, combining sequence without a precomposed form).
+const foldSampler = "\ufb01\u2460 \uff21\u00df\u0130\u00a0c\u200bd \U0001f44d\U0001f3fd \U0001d400 q\u0323\u0307"
+
+// deepFolds is the number of fold groups that are also placed below containers.
+const deepFolds = 2
+
+// leafEdges returns the edge groups of a leaf kind: all groups (full) or the first three (for
+// strings: plus the first deepFolds unicode fold groups).
 func leafEdges(k vu.TKind, full bool) [][]vu.Val {
 	var out [][]vu.Val
 	switch k {
@@ -88,10 +137,25 @@ func leafEdges(k vu.TKind, full bool) [][]vu.Val {
 			{vu.AnyObjV(kv("a", vu.IntV(1<<53))), vu.AnyObjV(kv("a", vu.IntV(1<<53+1)))},
 			{vu.AnyObjV(kv("a", vu.ListV(vu.IntV(math.MaxInt64-1)))), vu.AnyObjV(kv("a", vu.ListV(vu.IntV(math.MaxInt64))))},
 			{vu.AnyObjV(kv("a", vu.FloatV(0.1))), vu.AnyObjV(kv("a", vu.FloatV(0.10000000000000002)))},
+			// ... and the string folds
+			{vu.AnyObjV(kv("a", vu.StrV(strFoldGroups[0][0]))), vu.AnyObjV(kv("a", vu.StrV(strFoldGroups[0][1])))},
+			{vu.AnyObjV(kv("a", vu.ListV(vu.StrV(strFoldGroups[1][0])))), vu.AnyObjV(kv("a", vu.ListV(vu.StrV(strFoldGroups[1][1]))))},
 		}
 	}
 	if !full && len(out) > 3 {
 		out = out[:3]
+	}
+	if k == vu.TStr {
+		for i, g := range strFoldGroups {
+			if !full && i >= deepFolds {
+				break
+			}
+			var vs []vu.Val
+			for _, x := range g {
+				vs = append(vs, vu.StrV(x))
+			}
+			out = append(out, vs)
+		}
 	}
 	return out
 }
